@@ -154,7 +154,18 @@ func (d Depths) String() string {
 
 // Show renders a value canonically (independent of the SUT's printer) for
 // comparison with the reference evaluator.
-func Show(v zygo.Sexp) string {
+func Show(v zygo.Sexp) string { return show(v, map[interface{}]bool{}) }
+
+func show(v zygo.Sexp, busy map[interface{}]bool) string {
+	Show := func(x zygo.Sexp) string { return show(x, busy) }
+	switch v.(type) {
+	case *zygo.SexpArray, *zygo.SexpHash:
+		if busy[v] {
+			return "<cycle>"
+		}
+		busy[v] = true
+		defer delete(busy, v)
+	}
 	switch x := v.(type) {
 	case nil:
 		return "<nil-Sexp>"
